@@ -20,7 +20,7 @@ PROOF_MODULES = ['Ladybug.Props.C02']
 GREP_MODULES = ['Ladybug.Py', 'Ladybug.Model.Cal', 'Ladybug.Gen.DtTables', 'Ladybug.Proofs.CalLemmas',
                 'Ladybug.Model.AP', 'Ladybug.Gen.ApTables', 'Ladybug.Proofs.C04Lemmas',
                 'Ladybug.Proofs.C04Listings', 'Ladybug.Props.C08', 'Ladybug.Props.C04',
-                'Ladybug.Model.Filter', 'Ladybug.Proofs.C02Lemmas', 'Ladybug.Proofs.C02Index',
+                'Ladybug.Model.Filter', 'Ladybug.Proofs.C02Lemmas', 'Ladybug.Proofs.C02Index', 'Ladybug.Proofs.C02Slice',
                 'Ladybug.Drv.C02', 'Ladybug.DrvCore']
 RULE = ('sources: annual | partial (1..120 days, boundary-biased starts incl. 28/29 Feb and both year ends) | '
         'year-wrapping (short Dec->Jan and long), all 12 timesteps (annual: small ones), both leap flags, values = '
@@ -58,10 +58,12 @@ LEVEL_TEXT = ('Machine-checked Lean 4 theorems over an executable, value-polymor
               'search returns exactly the source pairs whose minute is requested, in source order; the index '
               'arithmetic of continuous collections (non-wrapping and, with the four repairs, year-wrapping; all 12 '
               'timesteps, both leap flags) returns for every requested minute of the collection the pair at that '
-              'minute, hence the same pairs as the search on the equivalent discontinuous collection; the slice of '
-              'the continuous period filter is exactly the run of pairs at the steps of the (clipped) filter period in '
-              'its chronological order, under that period as header; hour-window filters and hour lists reduce to '
-              'the minute path; pattern / range / statement / key filters keep exactly the satisfying positions. '
+              'minute, hence the same pairs as the search on the equivalent discontinuous collection; hour-window '
+              'period filters and hour lists reduce to that minute path (pairs at the period steps in the '
+              'period\'s chronological order, header = clipped period); pattern / range / statement / key filters '
+              'keep exactly the satisfying positions. Partial: for whole-day period filters the two slice bounds are '
+              'proved to be the cyclic positions of the filter\'s first step and last hour; the list-level step to '
+              '"element k of the slice is the pair at filter step k" is compared and tested, not proved. '
               'The model is compared with the real classes on structure-directed inputs on every run.')
 LEVEL_NOTE = ('Trusted: Lean kernel; axioms propext/Classical.choice/Quot.sound only; the correspondence run '
               '(agreement on generated inputs only); rational model of the float index arithmetic; IEEE part of '
@@ -450,6 +452,12 @@ def _moy_requests(rng, src, smoys, nreq):
     return out
 
 
+def _truncation_sensitive(smoys, rng, k=2):
+    """Minutes whose float hour times 60 falls just below the minute (int() instead of round() loses them)."""
+    cand = [m for m in smoys[:4000] if int((m / 60.0) * 60) != m]
+    return rng.sample(cand, min(k, len(cand)))
+
+
 def _disc_sources(ctx, rng):
     """Discontinuous sources with holes / unsorted / repeated steps: [(fields, moys, kind)]."""
     out = []
@@ -534,6 +542,7 @@ def correspondence(ctx):
         for _ in range(2):
             k = rng.choice([1, 3, 8])
             ms = rng.sample(smoys, min(k, len(smoys)))
+            ms = list(OrderedDict.fromkeys(ms + _truncation_sensitive(smoys, rng)))
             hs = [m / 60.0 for m in ms]
             r = rng.random()
             rk = 'exact'
@@ -979,6 +988,8 @@ CORPUS = [
     ('moys', {'src': [12, 30, 0, 1, 2, 23, 4, True], 'path': 'both', 'req': [0, 15, 527025, 524160]}),
     ('hoys', {'src': [12, 30, 0, 1, 2, 23, 4, True], 'path': 'both', 'req': [0, 15, 527025, 524160]}),
     ('hoys', {'src': [3, 1, 0, 3, 31, 23, 2, False], 'path': 'both', 'req': [84960, 84990], 'foreign': [84930, 129600]}),
+    ('hoys', {'src': [1, 1, 0, 1, 1, 23, 30, True], 'path': 'both', 'req': [246, 490, 492, 0]}),
+    ('hoys', {'src': [1, 1, 0, 1, 1, 23, 60, False], 'path': 'both', 'req': [123, 245, 247, 1439]}),
     ('period', {'src': [1, 1, 0, 12, 31, 23, 1, False], 'path': 'cont', 'fkind': 'straddle',
                 'filter': [12, 31, 0, 1, 1, 23, 1, False]}),
     # open finding C02-disc-period-order: the search keeps source order for a wrapping filter
@@ -1021,6 +1032,7 @@ def _oracle_cases(ctx):
             path = 'both' if nvals <= 1500 else 'cont'
             yield 'moys', {'src': list(c), 'path': path, 'req': req}
             if rng.random() < 0.5:
+                req = list(OrderedDict.fromkeys(req + _truncation_sensitive(smoys, rng)))
                 sset = set(smoys)
                 nm = _nmin(c[7])
                 step = 60 // c[6]
